@@ -1,0 +1,24 @@
+//go:build verif
+
+package strategy
+
+import "sync/atomic"
+
+// Verification hooks (build tag "verif" only), see limiter/verif_on.go.
+
+var verifHook atomic.Pointer[func(name string)]
+
+// SetVerifHook installs (or, with nil, removes) the function called at every schedule point.
+func SetVerifHook(f func(name string)) {
+	if f == nil {
+		verifHook.Store(nil)
+		return
+	}
+	verifHook.Store(&f)
+}
+
+func verifPoint(name string) {
+	if f := verifHook.Load(); f != nil {
+		(*f)(name)
+	}
+}
